@@ -28,8 +28,12 @@ func suiteSched(rn *runner, r *rng, tier string) {
 	for i := 0; i < n; i++ {
 		cr := r.fork()
 		// documents needing 1..60 index buffers (1408 indexes each), valid or failing early/late
+		mode := cr.intn(7)
+		if mode == 6 {
+			mode = 5
+		}
 		bufs := 1 + cr.intn(6)
-		if cr.chance(1, 6) {
+		if cr.chance(1, 6) || (mode == 5 && cr.chance(2, 3)) {
 			bufs = 16 + cr.intn(45)
 		}
 		var b strings.Builder
@@ -39,13 +43,27 @@ func suiteSched(rn *runner, r *rng, tier string) {
 			if k > 0 {
 				b.WriteByte(',')
 			}
-			switch cr.intn(6) {
+			// tokens of varying width, so that successive index deltas differ
+			switch cr.intn(8) {
 			case 0:
-				b.WriteString("\"s\"")
+				b.WriteByte('"')
+				for w := cr.intn(13); w > 0; w-- {
+					b.WriteByte(byte('a' + cr.intn(26)))
+				}
+				b.WriteByte('"')
 			case 1:
 				b.WriteString("{}")
+			case 2:
+				b.WriteString([]string{"true", "false", "null"}[cr.intn(3)])
+			case 3:
+				for w := 1 + cr.intn(8); w > 0; w-- {
+					b.WriteByte(byte('1' + cr.intn(9)))
+				}
 			default:
 				b.WriteByte(byte('0' + cr.intn(10)))
+			}
+			if cr.chance(1, 5) {
+				b.WriteString(strings.Repeat(" ", 1+cr.intn(4)))
 			}
 		}
 		b.WriteByte(']')
@@ -69,7 +87,6 @@ func suiteSched(rn *runner, r *rng, tier string) {
 		for len(text) <= 8192 {
 			text = "[" + text + "," + strings.Repeat(" ", 4000) + "1]"
 		}
-		mode := cr.intn(5)
 		procs := []int{1, 2, 4, 16}[cr.intn(4)]
 		runtime.GOMAXPROCS(procs)
 
@@ -84,7 +101,67 @@ func suiteSched(rn *runner, r *rng, tier string) {
 		var trace []byte
 		var producerDone atomic.Bool
 		hr := cr.fork()
+		// what stage 1 handed over, per buffer number: stage 2 must still find exactly that when it is done with it
+		type handed struct {
+			sum uint64
+			n   int
+		}
+		sent := map[uint64]handed{}
+		var firstOffset, lastPrepared, recvd atomic.Uint64
+		var haveFirst atomic.Bool
+		var changed []string
+		sumOf := func(off uint64, n int) uint64 {
+			sl := h.Slot(int(off % uint64(slots)))
+			x := uint64(1469598103934665603)
+			for _, v := range sl[:n] {
+				x = (x ^ uint64(v)) * 1099511628211
+			}
+			return x
+		}
+		verify := func(when string) {
+			k := recvd.Load()
+			if k == 0 || !haveFirst.Load() {
+				return
+			}
+			off := firstOffset.Load() + k - 1
+			mu.Lock()
+			hd, ok := sent[off]
+			mu.Unlock()
+			if ok && sumOf(off, hd.n) != hd.sum {
+				mu.Lock()
+				changed = append(changed, fmt.Sprintf("index buffer %d (slot %d) differs %s from what stage 1 handed over", k, off%uint64(slots), when))
+				mu.Unlock()
+			}
+		}
 		simdjson.VerifHook = func(ev int, a, bb uint64) {
+			switch ev {
+			case simdjson.VerifEvSlotAcquired:
+				if !haveFirst.Load() {
+					firstOffset.Store(a)
+					haveFirst.Store(true)
+				}
+			case simdjson.VerifEvBeforeSend:
+				sm := sumOf(a, int(bb))
+				mu.Lock()
+				sent[a] = handed{sm, int(bb)}
+				mu.Unlock()
+				lastPrepared.Store(a)
+			case simdjson.VerifEvBeforeRecv:
+				verify("when stage 2 was done with it")
+			case simdjson.VerifEvAfterRecv:
+				if a != ^uint64(0) {
+					recvd.Add(1)
+					if mode == 5 {
+						// consumer is handed a buffer and stalls before looking at it until the producer has
+						// prepared the buffer a full ring further on (it then blocks on the full channel)
+						want := firstOffset.Load() + recvd.Load() - 1 + uint64(slots) - 1
+						for w := 0; w < 400 && lastPrepared.Load() < want && !producerDone.Load(); w++ {
+							time.Sleep(5 * time.Microsecond)
+						}
+					}
+					verify("right after stage 2 received it")
+				}
+			}
 			mu.Lock()
 			switch ev {
 			case simdjson.VerifEvSlotAcquired:
@@ -146,6 +223,10 @@ func suiteSched(rn *runner, r *rng, tier string) {
 		}
 		mu.Lock()
 		tr := string(trace)
+		for _, c := range changed {
+			rn.disagree(disagreement{Kind: "spec", Ops: tc.ops, At: 0, Impl: c, Other: "<a handed-over buffer is not written until stage 2 is done with it>", Note: fmt.Sprintf("%s mode=%d procs=%d", kind, mode, procs)})
+			break
+		}
 		mu.Unlock()
 		// the observed hand-off trace must be a run of the Lean transition system that keeps every live buffer intact.
 		// A consumer that failed stops receiving on its own goroutine but keeps draining: events stay well-formed.
@@ -159,5 +240,5 @@ func suiteSched(rn *runner, r *rng, tier string) {
 		rn.rep.Distribution[cls]++
 		rn.seen[cls] = true
 	}
-	rn.rep.Rule = "documents above 8 KiB needing 1-60 index buffers, valid or failing at stage 1/2 early/late; schedules forced at the hook points (consumer a full ring behind, producer starved, alternation, random preemption) under GOMAXPROCS 1/2/4/16; outcome compared with the sequential model, hand-off trace replayed through the Lean transition system, channel drained on return; distinct = (kind, schedule, procs, buffers)"
+	rn.rep.Rule = "documents above 8 KiB needing 1-60 index buffers, valid or failing at stage 1/2 early/late; schedules forced at the hook points (consumer a full ring behind, consumer stalled on a just-received buffer until the producer is a full ring ahead, producer starved, alternation, random preemption) under GOMAXPROCS 1/2/4/16; outcome compared with the sequential model, hand-off trace replayed through the Lean transition system, every handed-over buffer checksummed at the send and again when stage 2 receives it and when it is done with it, channel drained on return; distinct = (kind, schedule, procs, buffers)"
 }
